@@ -55,15 +55,16 @@ def cases(tier, inst):
             yield (t, "let", "multi")
     # ONE comparison / membership object written once (c = x.p > 1) and used in several places of the condition (no
     # negation, see above)
-    for a, b in itertools.permutations(REPRESENTATIVE_8[:6] if tier == "thorough" else REPRESENTATIVE_4, 2):
-        if a[0] not in ("cmp", "in", "has"):
+    PRED_LEAVES = [("pf", "p_eq", (X, L(1))), ("pc", "PEq", (X, L(2)))]
+    for a, b in itertools.permutations((REPRESENTATIVE_8[:6] if tier == "thorough" else REPRESENTATIVE_4) + PRED_LEAVES, 2):
+        if a[0] not in ("cmp", "in", "has", "pf", "pc"):
             continue
         for t in (("or", a, ("and", a, b)), ("and", ("or", a, b), a), ("or", b, ("and", a, a)), ("and", a, ("or", b, a)),
                   ("or", ("and", a, b), a), ("and", a, a), ("or", a, a)):
             yield (t, "let", "sharedc")
     # ONE comparison object in three and four places, nested two levels deep
-    for a, b in itertools.permutations(REPRESENTATIVE_8[:6] if tier == "thorough" else REPRESENTATIVE_4, 2):
-        if a[0] not in ("cmp", "in", "has"):
+    for a, b in itertools.permutations((REPRESENTATIVE_8[:6] if tier == "thorough" else REPRESENTATIVE_4) + PRED_LEAVES, 2):
+        if a[0] not in ("cmp", "in", "has", "pf", "pc"):
             continue
         for t in (("or", ("or", a, a), ("or", b, a)), ("and", ("or", a, b), ("or", b, a)),
                   ("or", a, ("or", b, a)), ("and", ("or", a, a), ("or", a, b)), ("or", ("or", a, b), ("or", a, a))):
@@ -81,7 +82,7 @@ def cases(tier, inst):
                     yield (t, "let", "sharedl")
     # ONE negated leaf (s = not_(x.flag), s = not_(x.p < 2)) or one truth-position expression (s = x.flag) written once and
     # used in several places: the negated object as a whole is reused, never one object negated in one place only
-    reps_n = REPRESENTATIVE_8 if tier == "thorough" else REPRESENTATIVE_4
+    reps_n = (REPRESENTATIVE_8 if tier == "thorough" else REPRESENTATIVE_4) + PRED_LEAVES
     for a0 in reps_n:
         for a in ([("not", a0)] + ([a0] if a0[0] == "t" else [])):
             for b in reps_n:
